@@ -267,20 +267,23 @@ esl_sq_Copy(const ESL_SQ *src, ESL_SQ *dst)
   int   x;        /* index for optional extra residue markups */
   int status;
 
-  /* If <src> has structure annotation and <dst> does not, initialize an allocation in <dst> */
+  /* If <src> has structure annotation and <dst> does not, initialize an allocation in <dst>;
+   * if <src> has none, a reused <dst> must not keep the annotation of the sequence it held before.
+   */
   if (src->ss != NULL && dst->ss  == NULL) ESL_ALLOC(dst->ss, sizeof(char) * dst->salloc);
+  if (src->ss == NULL && dst->ss  != NULL) { free(dst->ss); dst->ss = NULL; }
 
-  /* similarly for optional extra residue markups */
+  /* similarly for optional extra residue markups: whatever a reused <dst> held goes first */
+  if (dst->nxr > 0) {
+    for (x = 0; x < dst->nxr; x++) {
+      if (dst->xr[x]     != NULL) { free(dst->xr[x]);     dst->xr[x]     = NULL; }
+      if (dst->xr_tag[x] != NULL) { free(dst->xr_tag[x]); dst->xr_tag[x] = NULL; }
+    }     
+    if (dst->xr     != NULL) { free(dst->xr);     dst->xr     = NULL; }
+    if (dst->xr_tag != NULL) { free(dst->xr_tag); dst->xr_tag = NULL; }
+    dst->nxr = 0;
+  }
   if (src->nxr > 0) {
-    if (dst->nxr > 0) {
-      for (x = 0; x < dst->nxr; x++) {
-	if (dst->xr[x]     != NULL) { free(dst->xr[x]);     dst->xr[x]     = NULL; }
-	if (dst->xr_tag[x] != NULL) { free(dst->xr_tag[x]); dst->xr_tag[x] = NULL; }
-      }     
-      if (dst->xr     != NULL) { free(dst->xr);     dst->xr     = NULL; }
-      if (dst->xr_tag != NULL) { free(dst->xr_tag); dst->xr_tag = NULL; }
-    }
-    
     dst->nxr = src->nxr;
     ESL_ALLOC(dst->xr_tag, sizeof(char *) * dst->nxr);
     ESL_ALLOC(dst->xr,     sizeof(char *) * dst->nxr);
